@@ -5,11 +5,12 @@
 set -u
 VERIF_DIR="$(cd "$(dirname "${BASH_SOURCE[0]}")" && pwd)"
 tier="${1:-quick}"
-BIN="$VERIF_DIR/bin"
+BIN="${BIN:-$VERIF_DIR/bin}"
+EVDIR="${VERIF_EVIDENCE_DIR:-$VERIF_DIR/evidence}"
 export GOFLAGS=-mod=mod GOPROXY=off GOSUMDB=off GOTOOLCHAIN=local
 MODFLAG=()
 if [ -n "${VERIF_REPO:-}" ]; then MODFLAG=(-modfile="$BIN/go.alt.mod"); fi
-if ! (cd "$VERIF_DIR/harness" && go test -c -race "${MODFLAG[@]}" -o "$BIN/monitor.race.test" ./run) >"$BIN/build.race.log" 2>&1; then
+if ! (cd "$VERIF_DIR/harness" && go test -c -race "${MODFLAG[@]}" -o "$BIN/monitor.race.$$.test" ./run) >"$BIN/build.race.log" 2>&1; then
   cat "$BIN/build.race.log"
   echo "INCONCLUSIVE property=C20 race harness does not build against /repo"
   exit 2
@@ -21,8 +22,8 @@ runs=3
 [ "$tier" = thorough ] && runs=6
 total=0; rcall=0
 for i in $(seq 1 $runs); do
-  GORACE="halt_on_error=0 log_path=$R/race.$i" VERIF_DIR="$R" VERIF_STAGE=race VERIF_PROP=C20 VERIF_TIER="$tier" VERIF_SEED=$(( ${VERIF_SEED:-1} * 100 + i )) \
-    timeout -s QUIT 3600 "$BIN/monitor.race.test" -test.run '^TestMonitor$' -test.timeout 0 >"$R/out.$i.log" 2>&1
+  GORACE="halt_on_error=0 log_path=$R/race.$i" VERIF_DIR="$R" VERIF_EVIDENCE_DIR="$R/evidence" VERIF_STAGE=race VERIF_PROP=C20 VERIF_TIER="$tier" VERIF_SEED=$(( ${VERIF_SEED:-1} * 100 + i )) \
+    timeout -s QUIT 3600 "$BIN/monitor.race.$$.test" -test.run '^TestMonitor$' -test.timeout 0 >"$R/out.$i.log" 2>&1
   rc=$?
   n=$(cat "$R"/race.$i.* 2>/dev/null | grep -c 'WARNING: DATA RACE')
   total=$((total + n))
@@ -55,7 +56,8 @@ elif [ $rcall -eq 1 ]; then
   echo "VIOLATION property=C20 replay=$keep/race-stage-$tier-s${VERIF_SEED:-1}.log"
 fi
 # fold the race-stage observations into the evidence file
-python3 - "$VERIF_DIR/evidence/C20.json" "$R" "$total" "$runs" "$rcall" <<'PY'
+rm -f "$BIN/monitor.race.$$.test"
+python3 - "$EVDIR/C20.json" "$R" "$total" "$runs" "$rcall" <<'PY'
 import json, sys, glob
 ev, R, total, runs, rcall = sys.argv[1], sys.argv[2], int(sys.argv[3]), int(sys.argv[4]), int(sys.argv[5])
 d = json.load(open(ev))
